@@ -1218,7 +1218,11 @@ def case_misfit(spec, rec):
 SUBS = {'history': case_history, 'misfit': case_misfit}
 
 
+FUZZ = {'misfit': (MISFIT, case_misfit)}
+
+
 def run(ctx):
     ctx.regression(SUBS)
     ctx.machine('history', SurveyMachine, ctx.n(400, 3000), steps=12)
     ctx.explore('misfit', MISFIT, case_misfit, ctx.n(400, 3000))
+    ctx.fuzz('misfit', ctx.n(200, 4000))
